@@ -80,7 +80,7 @@ Definition read_request (s : bytes) : read_result :=
 (* ---------- the chunked request body as bfe_http/chunked.go reads it ----------
    readLine: up to LF (a bare LF is accepted), trailing space / tab / CR / LF trimmed; parseHexUint: 1..16 hex
    digits, nothing else (no chunk extensions); chunk data must be followed by CRLF; after the last chunk
-   body.readTrailer wants CRLF (trailer fields are not generated: anything else counts as an error here).
+   body.readTrailer wants CRLF or well-formed trailer fields ended by a blank line.
    Size lines stay far below the 4096-byte line limit.  Result: the stream after the body, None on any error. *)
 Fixpoint split_lf (s : bytes) : option (bytes * bytes) :=
   match s with
@@ -100,7 +100,15 @@ Fixpoint req_chunks (fuel : nat) (s : bytes) {struct fuel} : bytes * bool :=
       match parse_hex_line (trim_right is_ws4 l) with
       | None => (r, false)                                  (* bad size line: the line has been consumed *)
       | Some n =>
-        if n =? 0 then match r with 13 :: 10 :: r' => (r', true) | _ => (r, false) end
+        if n =? 0 then
+          (* body.readTrailer: CRLF, or trailer fields up to a blank line (token ": " value lines are generated) *)
+          match r with
+          | 13 :: 10 :: r' => (r', true)
+          | _ => match strict_fields (S (length r)) r [] with
+                 | Some (_, r') => (r', true)
+                 | None => (r, false)
+                 end
+          end
         else if blen r <? n + 2 then ([], false)            (* the stream ends inside the chunk *)
         else match skipn (Z.to_nat n) r with
              | 13 :: 10 :: r2 => req_chunks f r2
